@@ -20,14 +20,15 @@
 (***************************************************************************)
 EXTENDS Integers, Sequences, FiniteSets, TLC, Json, SequencesExt
 
-CONSTANTS NKeys, MaxLen, MaxUnsortedLen
+CONSTANTS NKeys, MaxLen, MaxUnsortedLen,
+          EmptyKeys   \* how many stored keys may hold an EMPTY value (value 4): to an iterator an empty stored value is "nothing stored"
 
 Keys == 1..NKeys
 Decision == {"keep", "replace", "delete"}
 Strategies == {"Update", "IterUpdate", "EmptyPut"}
 
-ApplyMerge(d, old) == CASE d = "keep" -> old
-                        [] d = "replace" -> IF old = 0 THEN 2 ELSE 3
+ApplyMerge(d, old) == CASE d = "keep" -> IF old = 4 THEN 0 ELSE old      \* an empty result means "no entry"
+                        [] d = "replace" -> IF old \in {0, 4} THEN 2 ELSE 3
                         [] d = "delete" -> 0
 ApplyClean(d, old) == CASE d = "keep" -> old
                         [] d = "replace" -> 3
@@ -134,7 +135,7 @@ RECURSIVE Run(_)
 Run(s) == IF s.result # "run" THEN s ELSE Run(Step(s))
 
 ---------------------------------------------------------------------------
-Stores == [Keys -> {0, 1}]
+Stores == {s \in [Keys -> {0, 1, 4}] : Cardinality({k \in Keys : s[k] = 4}) <= EmptyKeys}
 RECURSIVE SeqsUpTo(_)
 SeqsUpTo(n) == IF n = 0 THEN {<<>>} ELSE SeqsUpTo(n - 1) \cup [1..n -> Keys]
 Inputs == {s \in SeqsUpTo(MaxLen) : StrictlyIncreasing(s) \/ Len(s) <= MaxUnsortedLen}
